@@ -5,15 +5,25 @@ legs: MC   TLC runs the statement machine of Statements.tla (rewrite into the te
            every small ledger x statement shape and checks that what it delivers is the DECLARATIVE meaning
            (per-account sums in type-then-name order; register with running balance of the matching postings; the
            directives whose FROM expression is TRUE).  Four deliberately broken expansions must be rejected.
+           StatementsSession.tla is the grain above: connections with their registered table objects and SESSIONS
+           (sequences of statements, each deriving its table by update() = shallow copy and scanning prepare());
+           invariant: every statement is evaluated on (ledger of its connection, its OWN clauses) whatever ran
+           before.  Three mechanisms that keep state across statements must be rejected.
       S2C  TLC prints, per statement shape, the SHORT statement and the EXPANDED SELECT as token sequences and, per
            (ledger, shape), the rows the specification requires.  The driver builds the ledger, executes both texts
            through Connection.execute, requires identical rows and descriptions and equality with the spec's rows.
            PRINT goes through BQLShell; the output is re-read with beancount.parser.parser.parse_string, projected to
            an abstract form and compared, directive by directive, with the entries the spec says must be kept.
+           Sessions: TLC emits every session of 2 (thorough: 3) statements over kinds x {no FROM, FROM expression,
+           each clause, all clauses}; the driver runs each on ONE shell / connection and requires, per statement,
+           what the same statement returns on a connection that executed nothing else.
       C2S  the Beancount example ledger and random ledgers: every shape of the big table (filters x OPEN / CLOSE / CLEAR
            subsets x summary functions x account patterns) is run short vs expanded (rows + description equal) and the
            observed rows are logged next to the summarised posting / directive table; TLC (Trace_Statements) judges
-           every line with the operators of the specification.
+           every line with the operators of the specification.  All statements of a ledger run on ONE shell /
+           connection (groups in seeded random order, then a stratified random session with repeated statements);
+           every summarised table the lines are judged against is obtained on a connection of its own that executes
+           nothing else, so a result that depends on the history of the connection is rejected by TLC.
 """
 import collections
 import datetime
@@ -714,82 +724,143 @@ def table_in_domain(rows):
                 raise OutOfDomain('account outside the alphabet of the model: %s' % a)
 
 
-def record_ledger(ctx, rec, name, entries, options, shapes, picks, psh):
-    """run every picked shape on the ledger: short vs expansion in Python, observed rows into the trace"""
-    conn = connect(entries, options)
-    groups = collections.defaultdict(list)
-    for si in picks:
-        s = shapes[si]
-        groups[(s['kind'] == 'print', s['f'], json.dumps(s['from'], sort_keys=True) if s['clauses'] or s['kind'] == 'print'
-                else '', clause_text(s['from']))].append(si)
-    nrun = 0
-    for (is_print, f, _, ct), sis in sorted(groups.items(), key=lambda kv: (kv[0][0], kv[0][1], kv[0][3])):
-        fc = shapes[sis[0]]['from']
-        if is_print:
-            # the directive table after OPEN / CLOSE / CLEAR
-            table = conn.tables['entries'].update(**clause_kwargs(fc))
-            summarised = list(table.prepare())
-            projs = [proj_entry(e) for e in summarised]
-            try:
-                dirs = [abstract_dir(e) for e in summarised]
-                for d in dirs:
-                    if not all(plain_ascii(x) for x in d[3] + d[4]):
-                        raise OutOfDomain('non-ASCII')
-                    for a in d[5]:
-                        if not set(a) <= ALPHABET:
-                            raise OutOfDomain('account alphabet')
-            except OutOfDomain:
-                ctx.skipped += len(sis)
-                continue
-            rec.write({'k': 'dirs', 'dirs': dirs})
-            psh.attach(entries, options)
-            for si in sis:
-                s = shapes[si]
-                case = {'ledger': name, 'shape': si + 1}
-                kept = print_case(ctx, psh, summarised, projs, s, 'print' + (':clauses' if s['clauses'] else ''), case, 'C2S')
-                nrun += 1
-                ctx.case(['c2s', name, si], True)
-                if kept is None:
-                    continue
-                rec.write({'k': 'print', 'from': s['from']['expr'], 'kept': kept},
-                          {'ledger': name, 'shape': si + 1, 'statement': text_of(s['short']), 'kind': 'print',
-                           'clauses': s['clauses'], 'ndirs': len(dirs), 'kept': kept[:40]})
-            continue
-        rows = posting_table(conn, f, fc)
+class Session:
+    """one BQLShell = one connection (shell.context) for a whole sequence of statements: PRINT goes through the shell's
+    dispatcher, BALANCES / JOURNAL / SELECT through execute() of the same connection"""
+
+    def __init__(self, entries, options=None):
+        self.psh = PrintShell()
+        self.psh.attach(entries, options)
+        self.conn = self.psh.sh.context
+
+
+def group_key(s):
+    """statements judged against the same summarised table"""
+    if s['kind'] == 'print':
+        return ('dirs', 'none', clause_text(s['from']))
+    return ('posts', s['f'], clause_text(s['from']))
+
+
+class Oracle:
+    """the summarised posting / directive tables of one ledger, per (summary function, OPEN / CLOSE / CLEAR).  Each is
+    obtained on a connection of its own that executes nothing else: the tables TLC judges the recorded rows against
+    must not share state with the connection under observation."""
+
+    def __init__(self, entries, options):
+        self.entries, self.options = entries, options
+        self.cache = {}
+
+    def get(self, s):
+        key = group_key(s)
+        o = self.cache.get(key)
+        if o is None:
+            o = self.cache[key] = (self.directives if key[0] == 'dirs' else self.postings)(s)
+        return o
+
+    def directives(self, s):
+        table = connect(self.entries, self.options).tables['entries'].update(**clause_kwargs(s['from']))
+        summarised = list(table.prepare())
+        o = {'summarised': summarised, 'projs': [proj_entry(e) for e in summarised], 'in_domain': True}
+        try:
+            o['dirs'] = dirs = [abstract_dir(e) for e in summarised]
+            for d in dirs:
+                if not all(plain_ascii(x) for x in d[3] + d[4]):
+                    raise OutOfDomain('non-ASCII')
+                for a in d[5]:
+                    if not set(a) <= ALPHABET:
+                        raise OutOfDomain('account alphabet')
+        except OutOfDomain:
+            o['in_domain'] = False
+        return o
+
+    def postings(self, s):
+        rows = posting_table(connect(self.entries, self.options), s['f'], s['from'])
+        o = {'in_domain': True}
         try:
             table_in_domain(rows)
-            scales, kscale = scale_table(rows)
-            posts = [[ymd(r[0]), opt(r[1]), opt(r[2]), opt(r[3]), r[4], proj_lot(r[5], scales, kscale),
-                      sorted(set(r[6]) | {r[4]}), r[7]] for r in rows]
-            in_domain = True
-        except OutOfDomain as ex:
-            in_domain = False
-        if in_domain:
-            rec.write({'k': 'ledger', 'posts': posts})
-        for si in sis:
-            s = shapes[si]
-            key = shape_key(s)
-            case = {'ledger': name, 'shape': si + 1}
-            r1 = check_pair(ctx, conn, s, key, case, 'C2S')
+            o['scales'], o['kscale'] = scales, kscale = scale_table(rows)
+            o['posts'] = [[ymd(r[0]), opt(r[1]), opt(r[2]), opt(r[3]), r[4], proj_lot(r[5], scales, kscale),
+                           sorted(set(r[6]) | {r[4]}), r[7]] for r in rows]
+        except OutOfDomain:
+            o['in_domain'] = False
+        return o
+
+
+def grouped_order(rng, shapes, picks):
+    """the picked shapes, statements judged against the same table next to each other, the groups in random order
+    (a statement without FROM clause may come before or after those with OPEN / CLOSE / CLEAR)"""
+    groups = collections.defaultdict(list)
+    for si in picks:
+        groups[group_key(shapes[si])].append(si)
+    keys = sorted(groups)
+    rng.shuffle(keys)
+    return [si for k in keys for si in groups[k]]
+
+
+def from_class(s):
+    return 'clauses' if s['clauses'] else ('expr' if s['from']['present'] else 'absent')
+
+
+def session_order(rng, shapes, picks, k):
+    """a stratified random session: per statement kind and per class of FROM clause (absent / expression only / with
+    OPEN, CLOSE or CLEAR) k statements, every one of them executed twice, in random order"""
+    order = []
+    for kind in ('print', 'balances', 'journal'):
+        for cls in ('absent', 'expr', 'clauses'):
+            pool_ = [i for i in picks if shapes[i]['kind'] == kind and from_class(shapes[i]) == cls]
+            order += 2 * rng.sample(pool_, min(k, len(pool_)))
+    rng.shuffle(order)
+    return order
+
+
+def record_session(ctx, rec, name, oracle, shapes, order, tag):
+    """run the statements `order` (indices into shapes) one after the other on ONE shell / connection attached to the
+    ledger: short vs expansion in Python, observed rows into the trace, next to the summarised table of the oracle"""
+    sess = Session(oracle.entries, oracle.options)
+    current = {'dirs': None, 'posts': None}
+    nrun = 0
+    for n, si in enumerate(order):
+        s = shapes[si]
+        key = group_key(s)
+        o = oracle.get(s)
+        case = {'ledger': name, 'shape': si + 1, 'pass': tag, 'history': [i + 1 for i in order[:n]]}
+        info = {'ledger': name, 'shape': si + 1, 'pass': tag, 'nth': n + 1, 'statement': text_of(s['short']), 'kind': s['kind'],
+                'clauses': s['clauses'], '_order': order}
+        ctx.case(['c2s', tag, name, n if tag == 'session' else 0, si], True)
+        if s['kind'] == 'print':
+            if not o['in_domain']:
+                ctx.skipped += 1
+                continue
+            if current['dirs'] != key:
+                rec.write({'k': 'dirs', 'dirs': o['dirs']})
+                current['dirs'] = key
+            kept = print_case(ctx, sess.psh, o['summarised'], o['projs'], s, 'print' + (':clauses' if s['clauses'] else ''), case, 'C2S')
             nrun += 1
-            ctx.case(['c2s', name, si], True)
-            if r1 is None:
+            if kept is None:
                 continue
-            if not in_domain:
-                ctx.skipped += 1
-                continue
-            try:
-                if s['kind'] == 'balances':
-                    obs = proj_balances_rows(r1, scales, kscale)
-                    line = {'k': 'balances', 'from': s['from']['expr'], 'where': s['where'], 'rows': obs}
-                else:
-                    obs = [[x[0], x[1], x[2], x[3], x[4], [x[5]], x[6]] for x in proj_journal_rows(r1, scales, kscale)]
-                    line = {'k': 'journal', 'from': s['from']['expr'], 'acct': s['acct'], 'rows': obs}
-            except OutOfDomain:
-                ctx.skipped += 1
-                continue
-            rec.write(line, {'ledger': name, 'shape': si + 1, 'statement': text_of(s['short']), 'kind': s['kind'],
-                             'clauses': s['clauses'], 'nposts': len(posts), 'rows': obs[:12]})
+            rec.write({'k': 'print', 'from': s['from']['expr'], 'kept': kept}, dict(info, ndirs=len(o['dirs']), kept=kept[:40]))
+            continue
+        if o['in_domain'] and current['posts'] != key:
+            rec.write({'k': 'ledger', 'posts': o['posts']})
+            current['posts'] = key
+        r1 = check_pair(ctx, sess.conn, s, shape_key(s), case, 'C2S')
+        nrun += 1
+        if r1 is None:
+            continue
+        if not o['in_domain']:
+            ctx.skipped += 1
+            continue
+        try:
+            if s['kind'] == 'balances':
+                obs = proj_balances_rows(r1, o['scales'], o['kscale'])
+                line = {'k': 'balances', 'from': s['from']['expr'], 'where': s['where'], 'rows': obs}
+            else:
+                obs = [[x[0], x[1], x[2], x[3], x[4], [x[5]], x[6]] for x in proj_journal_rows(r1, o['scales'], o['kscale'])]
+                line = {'k': 'journal', 'from': s['from']['expr'], 'acct': s['acct'], 'rows': obs}
+        except OutOfDomain:
+            ctx.skipped += 1
+            continue
+        rec.write(line, dict(info, nposts=len(o['posts']), rows=obs[:12]))
     return nrun
 
 
@@ -816,8 +887,11 @@ def validate_trace(ctx, rec, path):
     for rj in rejected:
         info = rec.info.get(rj['line'], {})
         key = '%s:%s' % (info.get('kind', '?') + (':clauses' if info.get('clauses') else ''), rj['clause'])
+        case = {k: v for k, v in info.items() if k != '_order'}
+        if '_order' in info:      # what the connection executed before (a replay runs it again)
+            case['history'] = [i + 1 for i in info['_order'][:info['nth'] - 1]]
         ctx.violation(key, 'recorded rows are not what the specification requires (clause %s)' % rj['clause'],
-                      dict(info, line=rj['line']), 'C2S', 'clause %s holds' % rj['clause'], info.get('rows', info.get('kept')))
+                      dict(case, line=rj['line']), 'C2S', 'clause %s holds' % rj['clause'], info.get('rows', info.get('kept')))
     if res.violated:
         ctx.violation('trace-invariant:%s' % ','.join(res.violated), 'invariant fails on a recorded trace',
                       {'behaviour': res.behaviour[:2000]}, 'C2S')
@@ -889,6 +963,88 @@ def parallel_replay(ctx, tables, cases, kind, what, procs=6):
     _JOB.clear()
 
 
+# ---------------------------------------------------------------------------------------------------------------
+# S2C, sessions (spec/StatementsSession.tla): TLC emits the sessions and, per statement, the version of the entry list
+# it must be evaluated on: (ledger of its connection, its own clauses)
+SESSION_LEDGERS = {1: 'pool', 2: 'random-0'}
+
+
+def session_tables(ctx, cfg='Gen_StatementsSession.cfg'):
+    res = ctx.tlc('StatementsSession', cfg, leg='GEN-sessions', workers=1, jvm=JVM, timeout=ctx.pick(600, 1800))
+    shapes = [p['shapes'] for p in res.printed if isinstance(p, dict) and p.get('k') == 'shapes']
+    sessions = [p for p in res.printed if isinstance(p, dict) and p.get('k') == 'session']
+    if len(shapes) != 1 or not sessions:
+        raise MachineryError('session generator: %d shape tables, %d sessions' % (len(shapes), len(sessions)))
+    return shapes[0], sessions
+
+
+def session_result(sess, shape):
+    text = text_of(shape['short'])
+    if shape['kind'] == 'print':
+        try:
+            return ['print', sess.psh.run(text)]
+        except Exception as ex:  # noqa
+            return ['EXC:%s' % type(ex).__name__, str(ex)[:200]]
+    return list(run_stmt(sess.conn, text))
+
+
+def show_result(r):
+    if r[0] == 'print':
+        return r[1][:600]
+    if isinstance(r[0], str):
+        return r
+    return [str(x)[:200] for x in r[1][:8]]
+
+
+def replay_sessions(ctx, tables, sshapes, sessions, what, leg='S2C'):
+    """every statement of a session, executed on the one shell / connection of its connection index, must return what
+    the same statement returns on a connection that has executed nothing else (the driver's realisation of
+    `evaluated on the version (ledger, own clauses)`)"""
+    ledgers, fresh = {}, {}
+
+    def ledger(c):
+        if c not in ledgers:
+            ledgers[c] = named_ledger(ctx, tables, SESSION_LEDGERS[c])[:2]
+        return ledgers[c]
+
+    def fresh_result(c, n):
+        if (c, n) not in fresh:
+            fresh[c, n] = session_result(Session(*ledger(c)), sshapes[n - 1])
+        return fresh[c, n]
+    nsess = nstmt = 0
+    for se in sessions:
+        conns = {}
+        texts = [text_of(sshapes[st['s'] - 1]['short']) for st in se['steps']]
+        for k, st in enumerate(se['steps']):
+            c, n = st['c'], st['s']
+            shape = sshapes[n - 1]
+            if se['want'][k] != {'ledger': c, 'cl': shape['own']}:
+                raise MachineryError('session %s: the specification wants step %d on %s -- not a version the driver can '
+                                     'realise' % (se['steps'], k + 1, se['want'][k]))
+            if c not in conns:
+                conns[c] = Session(*ledger(c))
+            got = session_result(conns[c], shape)
+            want = fresh_result(c, n)
+            nstmt += 1
+            ctx.case(['session', [[x['c'], x['s']] for x in se['steps'][:k + 1]]], k > 0 and shape['clauses'])
+            if isinstance(want[0], str) and want[0].startswith('EXC'):
+                ctx.skipped += 1
+                continue
+            if got != want:
+                ctx.violation('session:%s%s:history' % (shape['kind'], ':clauses' if shape['clauses'] else ''),
+                              'a statement returns something else after other statements on its connection than on a '
+                              'connection that executed nothing else',
+                              {'session': se, 'step': k + 1, 'statements': texts,
+                               'ledgers': {str(c_): SESSION_LEDGERS[c_] for c_ in conns}}, leg,
+                              show_result(want), show_result(got))
+        ctx.traces += 1
+        nsess += 1
+        if nsess == 200:
+            ctx.sample({'leg': leg, 'session': texts, 'connections': [st['c'] for st in se['steps']]})
+    ctx.leg(leg, **{what: nsess, what + '_statements': nstmt})
+    return nsess
+
+
 def load_tables(ctx):
     res = ctx.tlc('Gen_Statements', 'Gen_StatementsTab.cfg', leg='GEN-tables', workers=1, jvm=JVM)
     if len(res.printed) != 1:
@@ -913,16 +1069,30 @@ def direct_cases(ctx, tables):
     ctx.leg('S2C', executed_with_original_parser=n)
 
 
+def run_session_mc(ctx):
+    res = ctx.tlc('StatementsSession', ctx.pick('MC_StatementsSession.cfg', 'MC_StatementsSession4.cfg'), leg='MC',
+                  jvm=JVM, timeout=ctx.pick(600, 3000), workers=ctx.pick(2, 8),
+                  must_cover=ctx.pick(('SCompile', 'SExecute'), ()))
+    if res.violated:
+        ctx.violation('spec:session:' + ','.join(res.violated), 'a statement of a session is not evaluated on its own version '
+                      'of the ledger', {'behaviour': res.behaviour[:3000]}, 'MC')
+
+
 def run(ctx):
     ctx.rule = ('S2C: (ledger, statement shape) pairs emitted by TLC with the rows the spec requires; non-trivial = the '
                 'statement has a filter / pattern / summary function and returns at least one row (PRINT: keeps some but '
                 'not all directives); C2S: (ledger, shape of the big table) pairs on the example ledger and on random '
-                'ledgers, judged by TLC against the summarised posting / directive table')
+                'ledgers, judged by TLC against the summarised posting / directive table; sessions: one statement of a '
+                'TLC-emitted / random sequence executed on one connection, non-trivial when it has OPEN / CLOSE / CLEAR '
+                'and is not the first')
     ctx.assumptions += [
         'account patterns are literal or ^prefix patterns over [-0-9:A-Za-z_]; the case-insensitive search of the code is modelled',
         'numbers are integers in minor units (< 2^31) per currency; other cases are skipped and counted',
         'column names are compared modulo blanks, case and doubled parentheses (they derive from the source text)',
-        'the entry list after OPEN / CLOSE / CLEAR is taken as given (BeanTable.prepare / an independent SELECT): C13 judges it',
+        'the entry list after OPEN / CLOSE / CLEAR is taken as given (BeanTable.prepare / an independent SELECT, each on a '
+        'connection of its own that executes nothing else): C13 judges it',
+        'a result is a function of (ledger, statement): the statements of a ledger share one shell / connection and what '
+        'ran before must not matter (StatementsSession.tla); S2C sessions compare with a connection that executed nothing else',
         'MAXWIDTH is the identity on strings that fit and have no blank runs; longer ones only have their length checked',
         'beanquery.parser.parse is memoised by text inside the replay loops (TatSu: 30-100 ms per statement, the templates '
         'are re-parsed on every execution); a sample runs with the original parser',
@@ -936,10 +1106,16 @@ def run(ctx):
     if want('MC'):
         import concurrent.futures as cf
         # the four non-vacuity runs (small, they stop at the first counterexample) run next to the exhaustive one
-        with cf.ThreadPoolExecutor(5) as pool:
+        with cf.ThreadPoolExecutor(9) as pool:
             futs = [pool.submit(ctx.tlc, 'MC_Statements', 'MC_Statements_%s.cfg' % v, leg='MC-nonvacuity',
                                 expect_violation='DenoteIsMeaning', workers=2, jvm=JVM)
                     for v in ('no_where', 'order_by_name', 'balance_raw', 'print_keeps_null')]
+            # sessions: results do not depend on what a connection (or another one) executed before; mechanisms that
+            # keep state across statements on the table object / the registered object / the class are rejected
+            futs += [pool.submit(ctx.tlc, 'StatementsSession', 'MC_StatementsSession_%s.cfg' % v, leg='MC-nonvacuity',
+                                 expect_violation='Independent', workers=2, jvm=JVM)
+                     for v in ('memo_on_object', 'update_in_place', 'memo_on_class')]
+            futs.append(pool.submit(run_session_mc, ctx))
             for cfg in ctx.pick(('MC_Statements.cfg',), ('MC_Statements4.cfg', 'MC_Statements4b.cfg')):
                 res = ctx.tlc('MC_Statements', cfg, leg='MC', jvm=JVM, timeout=ctx.pick(900, 3000), workers=ctx.pick(12, 16),
                               must_cover=('Rewrite', 'CompilePrint', 'Scan', 'Finalize', 'Order', 'Strip', 'PrintScan', 'PrintEmit'))
@@ -957,7 +1133,8 @@ def run(ctx):
                           timeout=ctx.pick(900, 3000))
             cases = res.printed
             ctx.log('S2C: %d cases emitted' % len(cases))
-            preparse([text_of(sh[k]) for sh in tables['shapes'] + tables['printshapes'] for k in ('short', 'expanded')])
+            sshapes, sessions = session_tables(ctx, 'Gen_StatementsSession.cfg')
+            preparse([text_of(sh[k]) for sh in tables['shapes'] + tables['printshapes'] + sshapes for k in ('short', 'expanded')])
             parallel_replay(ctx, tables, [c for c in cases if c['t'] == 'postings'], 'postings', 'posting_cases')
             parallel_replay(ctx, tables, [c for c in cases if c['t'] == 'entries'], 'entries', 'print_cases')
             nsim = ctx.pick(1500, 40000)
@@ -969,6 +1146,10 @@ def run(ctx):
             parallel_replay(ctx, tables, [c for c in cases if c['t'] == 'postings'], 'postings', 'simulated_posting_cases')
             parallel_replay(ctx, tables, [c for c in cases if c['t'] == 'entries'], 'entries', 'simulated_print_cases')
             direct_cases(ctx, tables)
+            replay_sessions(ctx, tables, sshapes, sessions, 'sessions')
+            if not ctx.quick:
+                for cfg, what in (('Gen_StatementsSession3.cfg', 'sessions_of_3'), ('Gen_StatementsSession2c.cfg', 'sessions_2_connections')):
+                    replay_sessions(ctx, tables, sshapes, session_tables(ctx, cfg)[1], what)
         # ---- C2S
         if want('C2S'):
             big = tables['bigshapes']
@@ -992,10 +1173,19 @@ def run(ctx):
                 subset = allidx
             preparse([text_of(big[i][k]) for i in subset for k in ('short', 'expanded')])
             names = ['pool'] + ['random-%d' % k for k in range(ctx.pick(4, 40))] + ['example']
+            nsession = 0
             for name in names:
                 entries, options, nerr = named_ledger(ctx, tables, name)
                 picks = subset if (ctx.quick or not name.startswith('random')) else sorted(rng.sample(allidx, 200))
-                nrun += record_ledger(ctx, rec, name, entries, options, big, picks, psh)
+                oracle = Oracle(entries, options)
+                # all the statements of the ledger on one shell / connection, the groups in random order ...
+                nrun += record_session(ctx, rec, name, oracle, big, grouped_order(rng, big, picks), 'groups')
+                if name != 'example':
+                    # ... and a stratified random session on another one (the tables of the example ledger are too
+                    # large to be written next to every statement)
+                    n = record_session(ctx, rec, name, oracle, big, session_order(rng, big, picks, ctx.pick(3, 5)), 'session')
+                    nrun += n
+                    nsession += n
                 if name == 'example' and not nerr:
                     psh.attach(entries, options)
                     unfiltered_print_roundtrip(ctx, psh, entries, 'example')
@@ -1003,7 +1193,7 @@ def run(ctx):
             with open(path) as f:
                 first = [json.loads(x) for x in itertools.islice(f, 2)]
             ctx.sample({'leg': 'C2S', 'first_lines': [str(x)[:600] for x in first]})
-            ctx.leg('C2S', statements_run=nrun)
+            ctx.leg('C2S', statements_run=nrun, of_which_in_random_sessions=nsession)
             validate_trace(ctx, rec, path)
     finally:
         uninstall_parse_memo()
@@ -1027,6 +1217,17 @@ def replay(ctx, rep):
         after = len(ctx.violations) + sum(v['n'] for v in ctx.known_hits.values())
         print('replay:', 'MISMATCH reproduced' if after > before else 'no mismatch')
         return 1 if after > before else 0
+    if 'session' in case:
+        install_parse_memo()
+        try:
+            sshapes, _ = session_tables(ctx)
+            before = len(ctx.violations) + sum(v['n'] for v in ctx.known_hits.values())
+            replay_sessions(ctx, tables, sshapes, [case['session']], 'replayed')
+            after = len(ctx.violations) + sum(v['n'] for v in ctx.known_hits.values())
+        finally:
+            uninstall_parse_memo()
+        print('replay:', 'MISMATCH reproduced' if after > before else 'no mismatch')
+        return 1 if after > before else 0
     if isinstance(case.get('ledger'), str):
         big = tables['bigshapes']
         install_parse_memo()
@@ -1035,7 +1236,9 @@ def replay(ctx, rep):
             path = ctx.path('replay_trace.ndjson')
             rec = Recorder(ctx, path)
             before = len(ctx.violations) + sum(v['n'] for v in ctx.known_hits.values())
-            record_ledger(ctx, rec, case['ledger'], entries, options, big, [case['shape'] - 1], PrintShell())
+            # what the connection had executed before, then the statement
+            order = [i - 1 for i in case.get('history', [])] + [case['shape'] - 1]
+            record_session(ctx, rec, case['ledger'], Oracle(entries, options), big, order, case.get('pass', 'groups'))
             rec.close()
             if rec.lines:
                 validate_trace(ctx, rec, path)
